@@ -51,12 +51,16 @@ func (bucket *Bucket) UUID() (string, error) {
 func (bucket *Bucket) Close(_ context.Context) {
 	traceEnter("Bucket.Close", "%s", bucket)
 
-	unregisterBucket(bucket)
-
 	bucket.mutex.Lock()
-	defer bucket.mutex.Unlock()
-
+	if bucket.closed {
+		// already closed: this handle's reference was released the first time
+		bucket.mutex.Unlock()
+		return
+	}
 	bucket.closed = true
+	bucket.mutex.Unlock()
+
+	unregisterBucket(bucket)
 }
 
 // _closeSqliteDB closes the underlying sqlite database and shuts down dcpFeeds. Must have a lock to call this function.
